@@ -420,6 +420,25 @@ def weave_fn(text, directives, what, canary=False):
                 else:
                     raise WeaveError("no block after anchor `%s` in %s" % (arg, what))
                 inserts.append((i + 1, "\n" + payload, 0))
+        elif k == "tail":
+            # before the tail expression of the function body: after the last top-level statement
+            if body is None:
+                raise WeaveError("tail on a declaration in %s" % what)
+            depth = 0
+            last_end = sig_end + 1
+            for i in range(sig_end, len(text)):
+                if not mask[i]:
+                    continue
+                c = text[i]
+                if c in "([{":
+                    depth += 1
+                elif c in ")]}":
+                    depth -= 1
+                    if c == "}" and depth == 1:
+                        last_end = i + 1
+                elif c == ";" and depth == 1:
+                    last_end = i + 1
+            inserts.append((last_end, "\n" + payload + "\n", 0))
         elif k in ("loop", "loop-body"):
             marker = "/*@%s %s@*/" % ("LOOP" if k == "loop" else "LOOPBODY", arg)
             pos = text.find(marker)
